@@ -1,4 +1,6 @@
+pub mod addfar;
 pub mod cells;
+pub mod iloc;
 pub mod insphere;
 pub mod routes;
 pub mod tess;
